@@ -1,6 +1,7 @@
 (** Property C06 -- scrolling stays in its region and feeds the scrollback in order.
     Only pinned statements, closed by [exact], with their assumptions printed. *)
 From Avt Require Import Gen.TermFns Proofs.TermEasy Proofs.TermTie.
+From Avt Require Import Gen.BufFns Proofs.BufTie.
 From Avt Require Import Oracles.Step Proofs.Inv Proofs.VisEq Proofs.BufScroll Proofs.SpecScroll Proofs.StepC06C08 Proofs.StepC06M.
 
 (** LF/IND/NEL on the bottom margin, RI on the top margin, SU, SD, IL, DL: from every state satisfying the invariant the control function succeeds and yields exactly the specified screen, scrollback, cursor and modes (all fields except dirty flags / lazy-trim flag). *)
@@ -51,3 +52,15 @@ Theorem C06_source_tie : forall t f, TScal t -> ev_fn f = true -> exists z, g_ex
 Proof. exact tie_execute_ev. Qed.
 Check C06_source_tie : forall t f, TScal t -> ev_fn f = true -> exists z, g_execute (zabs t) f = Some (z, true) /\ execute t f = zrun z t.
 Print Assumptions C06_source_tie.
+
+(** SOURCE TIE BY PROOF: the function is REGENERATED from the Rust source on every run (Gen/BufFns.v, translate/buf2coq.py: slice and Vec idioms into the model's list primitives, every Rust panic condition as a guard) and the hand-written model function is proved equal to it (=~ : equal up to the panic-site number) - an edit to the Rust function breaks this theorem (Buffer::scroll_up, all three branches) *)
+Theorem C06_source_scroll_up : forall b a z n p, 0 < n \/ z <= brows b -> g_buffer_scroll_up b a z n p =~ buf_scroll_up b a z n p.
+Proof. exact tie_buffer_scroll_up. Qed.
+Check C06_source_scroll_up : forall b a z n p, 0 < n \/ z <= brows b -> g_buffer_scroll_up b a z n p =~ buf_scroll_up b a z n p.
+Print Assumptions C06_source_scroll_up.
+
+(** Buffer::scroll_down *)
+Theorem C06_source_scroll_down : forall b a z n p, g_buffer_scroll_down b a z n p =~ buf_scroll_down b a z n p.
+Proof. exact tie_buffer_scroll_down. Qed.
+Check C06_source_scroll_down : forall b a z n p, g_buffer_scroll_down b a z n p =~ buf_scroll_down b a z n p.
+Print Assumptions C06_source_scroll_down.
